@@ -73,7 +73,8 @@ def dec(t):
     if 'z' in t:
         return bytes(t['z'])
     if 'o' in t:
-        return {'dict': {'a': 1}, 'tuple3': (1, 2, 3), 'complex': 1j, 'set': {1}, 'object': object()}[t['o']]
+        return {'dict': {'a': 1}, 'tuple3': (1, 2, 3), 'tuple0': (), 'complex': 1j, 'set': {1}, 'object': object(),
+                'emptydict': {}, 'emptyset': set(), 'bytearray0': bytearray()}[t['o']]
     raise ValueError(t)
 
 
@@ -142,6 +143,17 @@ def heads(itf, send_time, v, out):
             heads(itf, send_time, x, out)
 
 
+def snapshot(v):
+    """type- and sign-exact picture of a value tree (repr of a float keeps -0.0; list identity is not part of it)"""
+    if isinstance(v, (list, tuple)):
+        return [type(v).__name__] + [snapshot(x) for x in v]
+    if isinstance(v, (bytes, bytearray, memoryview)):
+        return [type(v).__name__, bytes(v).hex() if len(v) < 64 else (len(v), hash(bytes(v)))]
+    if isinstance(v, (dict, set)) or type(v) is object:
+        return [type(v).__name__]
+    return [type(v).__name__, repr(v)]
+
+
 def size_of(f):
     try:
         return int(f())
@@ -158,15 +170,32 @@ def run_build(c):
     tags = []
     heads(itf, st, v, tags)
     res['tags'] = tags
+    before = snapshot(v)
     dgram = None
     try:
-        pk = limited(lambda: itf._build_msg(st, v) if c['kind'] == 'msg' else itf._build_bundle(st, v))
+        if c['kind'] == 'rawbundle':          # OscBundleBuilder with a given timetag (edges of the uint64 range)
+            def raw():
+                b = oli.OscBundleBuilder(int(c['tt']))
+                for m in v[1:]:
+                    b.add_content(itf._build_msg(st, m))
+                return b.build()
+            pk = limited(raw)
+        else:
+            pk = limited(lambda: itf._build_msg(st, v) if c['kind'] == 'msg' else itf._build_bundle(st, v))
         dgram = pk.dgram
         res['build'] = ['ok', dgram.hex(), len(dgram)]
+        # the same list built a second time gives the same bytes (no state kept between builds)
+        if c['kind'] != 'rawbundle' and len(dgram) < 5000:
+            again = (itf._build_msg(st, v) if c['kind'] == 'msg' else itf._build_bundle(st, v)).dgram
+            res['rebuild_same'] = again == dgram
     except BaseException as e:
         res['build'] = ['err', err_code(e), type(e).__name__]
     if dgram is not None and c.get('parse', True):
         res['parse'] = parse_packet(dgram)
+    if c['kind'] == 'rawbundle':
+        res['pred'] = 0
+        res['mutated'] = snapshot(v) != before
+        return res
     if c['kind'] == 'msg':
         res['pred'] = size_of(lambda: ADDR._calc_msg_dgram_size(v))
     else:
@@ -190,6 +219,7 @@ def run_build(c):
                 res['clumps'].append({'size': size, 'lens': [len(k) for k in cl], 'partition': same, 'real': real})
             except BaseException as e:
                 res['clumps'].append({'size': size, 'err': err_code(e), 'exc': type(e).__name__})
+    res['mutated'] = snapshot(v) != before         # building / predicting / clumping must not touch the caller's lists
     return res
 
 
@@ -302,6 +332,7 @@ def run_site(c):
         server = _DEF['srv']
         server._addr = addr
         comp = dec(c['comp']) if c.get('comp') is not None else None
+        before = snapshot(comp)
         arg = (lambda s, comp=comp: comp) if c.get('comp_fn') else comp
         written = []
         real_write = sd._write_def_file
@@ -323,15 +354,51 @@ def run_site(c):
             del sd._write_def_file
         res['calls'] = calls
         res['file_written'] = len(written)
+        res['mutated'] = snapshot(comp) != before
+    elif c['kind'] == 'sendmsg':
+        addr, calls = make_addr(True)
+        msg = dec(c['v'])
+        before = snapshot(msg)
+        try:
+            addr.send_msg(*msg)
+        except BaseException as e:
+            res['error'] = [err_code(e), type(e).__name__, str(e)[:200]]
+        res['calls'] = calls
+        res['mutated'] = snapshot(msg) != before
     elif c['kind'] in ('clumped', 'sync'):
         addr, calls = make_addr(True)
         els = dec(c['els'])
         t = dec(c['time'])
+        before = snapshot(els)
         try:
             via = c.get('via', 'direct')
             if c['kind'] == 'clumped':
                 if via == 'direct':
                     addr.send_clumped_bundles(t, *els)
+                elif via in ('ctx_server', 'ctx_raise', 'ctx_raise_base'):
+                    # Server.bind(): the context swaps server.addr and must restore it on every exit path
+                    from sc3.synth import server as srv
+                    if 'srv' not in _DEF:
+                        _DEF['srv'] = srv.Server('c06srv', addr)
+                    server = _DEF['srv']
+                    server._addr = addr
+                    server.latency = t
+                    class _Stop(BaseException):
+                        pass
+                    try:
+                        with server.bind() as b:
+                            res['addr_swapped'] = server.addr is b
+                            for e in els:
+                                server.addr.send_msg(*e)
+                            res['calls_in_ctx'] = len(calls)
+                            if via == 'ctx_raise':
+                                raise RuntimeError('inside bind')
+                            if via == 'ctx_raise_base':
+                                raise _Stop()
+                    except (RuntimeError, _Stop):
+                        res['raised'] = True
+                    res['addr_restored'] = server.addr is addr
+                    server.addr.send_msg('/after', 0)          # the next, unrelated operation goes out directly
                 else:                                   # the BundleNetAddr context manager
                     with nad.BundleNetAddr(addr) as b:
                         for e in els:
@@ -355,6 +422,7 @@ def run_site(c):
         except BaseException as e:
             res['error'] = [err_code(e), type(e).__name__, str(e)[:200]]
         res['calls'] = calls
+        res['mutated'] = snapshot(els) != before
     logging.disable(logging.NOTSET)
     return res
 
@@ -365,10 +433,11 @@ def main_():
         try:
             if c['kind'] == 'parse':
                 out.append({'parse': parse_packet(bytes.fromhex(c['dgram']))})
-            elif c['kind'] in ('dsend', 'clumped', 'sync'):
+            elif c['kind'] in ('dsend', 'clumped', 'sync', 'sendmsg'):
                 out.append(run_site(c))
             elif c['kind'] == 'strpad4':
-                out.append({'vals': [int(nad.NetAddr._strpad4(n)) for n in c['n']]})
+                out.append({'vals': [int(nad.NetAddr._strpad4(n)) for n in c['n']],
+                            'enc': [len(oli.write_string('a' * n)) if n <= 300 else None for n in c['n']]})
             else:
                 out.append(run_build(c))
         except BaseException as e:     # never let one case kill the run
